@@ -3,6 +3,7 @@ import random
 
 from vmon import canon
 from vmon import gens as G
+from vmon.gens import THOROUGH_SCALE as TS
 from vmon import oracles as O
 
 PID = "C09"
@@ -281,7 +282,7 @@ def generate(tier, seed):
         for bad in ("list", "ndarray", "series", "none", "frame_without_tcr_columns"):
             for where in (("anchors", "comparisons", "pdist") if thorough else ("anchors", "pdist") if bad != "list" else ("comparisons",)):
                 yield "reject", {"cls": cls, "bad": bad, "where": where}, True
-    n_rand = 3000 if thorough else 150
+    n_rand = 3000 * TS if thorough else 150
     for i in range(n_rand):
         cls = CLASSES[i % 6]
         na, nb = rng.randint(1, 9), rng.randint(1, 9)
@@ -291,7 +292,7 @@ def generate(tier, seed):
             cols = SCOPE[cls][0]
         yield "metric", {"cls": cls, "w": rand_weights(rng, cls, full=i % 3 != 0), "anchors": rows[:na], "comps": rows[na:],
                          "index": [None, "shifted", "permuted", "string", "duplicated"][i % 5], "extra": i % 2 == 0, "cols": cols}, i < 60
-    for i in range(400 if thorough else 24):
+    for i in range(400 * TS if thorough else 24):
         rows = rand_rows(rng, rng.randint(3, 12), va, vb)
         cut = rng.randint(1, len(rows) - 1)
         yield "additive", {"w": rand_weights(rng, "CdrLevenshtein"), "anchors": rows[:cut], "comps": rows[cut:]}, i < 16
